@@ -181,6 +181,7 @@ class MulticlassCarver(BaseCarver):
                 ordinal_features=self.ordinal_features,
                 values_orders=raw_values_orders,
                 max_n_mod=self.max_n_mod,
+                min_freq_mod=self.min_freq_mod,
                 output_dtype=self.output_dtype,
                 dropna=self.dropna,
                 copy=True,  # copying x to keep raw columns as is
